@@ -210,7 +210,9 @@ func (fc *FnCtx) zeroInit(t types.Type, ref string) {
 				// array of strings: element arrays are themselves arrays; leave unconstrained
 				continue
 			}
-			fc.heapSet(&fc.cur, hn, arrOf(arrOf(sorts[i])), fmt.Sprintf("(store %s %s %s)", cur, ref, constArrayOf(sorts[i], z)))
+			// fresh memory is zero already: an assumption about the (never before used) reference instead of
+			// a heap update, so allocating does not change the heap anything else can observe
+			fc.assumeHere(fmt.Sprintf("(= (select %s %s) %s)", cur, ref, constArrayOf(sorts[i], z)))
 		}
 		return
 	}
@@ -513,6 +515,7 @@ func (fc *FnCtx) doStore(x *ssa.Store) {
 	fc.nilCheck(ref, x.Pos(), x.Addr)
 	l := fc.locOf(x.Addr)
 	v := fc.val(x.Val)
+	fc.storedAsserts(x, v)
 	if len(v.C) != len(sortsOf(l.T)) {
 		fc.unsup("store shape mismatch at %s", fc.e.fset.Position(x.Pos()))
 		return
@@ -927,4 +930,37 @@ func (fc *FnCtx) tryEvalBool(e Expr, env *Env) (f string, ok bool) {
 		}
 	}()
 	return fc.evalBool(e, env), true
+}
+
+// storedAsserts: `stored at "anchor" expr` clauses bind to the store whose value expression is written on a
+// source line containing the anchor text.
+func (fc *FnCtx) storedAsserts(x *ssa.Store, v Val) {
+	if fc.con == nil || len(fc.con.Stored) == 0 {
+		return
+	}
+	pos := x.Pos()
+	if vi, ok := x.Val.(ssa.Instruction); ok && vi.Pos().IsValid() {
+		pos = vi.Pos()
+	}
+	line := fc.e.srcLine(pos)
+	for i := range fc.con.Stored {
+		a := &fc.con.Stored[i]
+		if !strings.Contains(line, a.Anchor) {
+			continue
+		}
+		if fc.anchorsDone == nil {
+			fc.anchorsDone = map[string]bool{}
+		}
+		fc.anchorsDone["stored:"+a.Anchor] = true
+		env := fc.pointEnv(fc.curBlock)
+		want := fc.evalExpr(a.C.E, env)
+		if len(want.C) != len(v.C) {
+			fc.fail("stored at %q: value shape mismatch", a.Anchor)
+		}
+		var parts []string
+		for k := range want.C {
+			parts = append(parts, fmt.Sprintf("(= %s %s)", v.C[k], want.C[k]))
+		}
+		fc.oblige("stored", a.C.Label, and(parts...), pos, &a.C)
+	}
 }
